@@ -1,0 +1,39 @@
+//go:build verif
+
+package schedulemanager
+
+// Contracts for the verification framework in /verif (comment-only file, build tag `verif`).
+//
+// Abstract view: ids(c) = key set of sm.Entries[c].Ids; the crontab c is registered with the
+// cron library exactly while ids(c) is not empty (ghost cron.registered, see /verif/contracts).
+
+// Representation invariant of the manager.
+//@ pred R(sm *scheduleManager) := sm.Entries != nil
+//@    && forall(c, string, has(sm.Entries, c) ==> sm.Entries[c].Ids != nil && len(sm.Entries[c].Ids) > 0 && c != "" && cron.specOf[sm.Entries[c].EntryID] == c)
+//@    && forall(c, string, cron.registered[c] == ite(has(sm.Entries, c), 1, 0))
+//@    && forall(c1, string, forall(c2, string, has(sm.Entries, c1) && has(sm.Entries, c2) && c1 != c2 ==> sm.Entries[c1].Ids != sm.Entries[c2].Ids))
+
+// C11: registering (crontab, id) adds id to ids(crontab) and never creates a second registration.
+//@ func (*scheduleManager).Add
+//@   prop C11
+//@   requires R(sm) && newEntry.Crontab != ""
+//@   modifies mapof(sm.Entries), cron.registered, cron.specOf, all(mapof(sm.Entries[newEntry.Crontab].Ids))
+//@   let c := newEntry.Crontab
+//@   ensures [inv]      R(sm)
+//@   ensures [added]    has(sm.Entries, c) && has(sm.Entries[c].Ids, newEntry.Id)
+//@   ensures [same-ids] old(has(sm.Entries, c)) ==> sm.Entries[c].Ids == old(sm.Entries[c].Ids)
+//@        && forall(i, string, i != newEntry.Id ==> has(sm.Entries[c].Ids, i) == old(has(sm.Entries[c].Ids, i)))
+//@   ensures [new-ids]  !old(has(sm.Entries, c)) ==> forall(i, string, has(sm.Entries[c].Ids, i) == (i == newEntry.Id))
+//@   ensures [others]   forall(d, string, d != c ==> has(sm.Entries, d) == old(has(sm.Entries, d)) && sm.Entries[d] == old(sm.Entries[d]))
+
+// C11: removing (crontab, id) removes id; the registration goes exactly when the last id goes;
+// an unknown pair changes nothing.
+//@ func (*scheduleManager).Remove
+//@   prop C11
+//@   requires R(sm)
+//@   modifies mapof(sm.Entries), cron.registered, all(mapof(sm.Entries[delEntry.Crontab].Ids))
+//@   let c := delEntry.Crontab
+//@   ensures [inv]     R(sm)
+//@   ensures [removed] !(has(sm.Entries, c) && has(sm.Entries[c].Ids, delEntry.Id))
+//@   ensures [unknown] !old(has(sm.Entries, c) && has(sm.Entries[c].Ids, delEntry.Id)) ==> has(sm.Entries, c) == old(has(sm.Entries, c)) && cron.registered[c] == old(cron.registered[c])
+//@   ensures [others]  forall(d, string, d != c ==> has(sm.Entries, d) == old(has(sm.Entries, d)) && sm.Entries[d] == old(sm.Entries[d]))
